@@ -637,7 +637,7 @@ POOL['g'] = ('sub', _SH, ('mul', P, Y))
 
 def play(spec, val, Model=None):
     """execute a history through the public API; val(name) supplies leaf values (proxies in the harness, floats in the replay).
-       steps: ('add', k) ('del', k) ('dict+', k) ('dict-', k) ('set', leaf) ('load',) ('structure',)
+       steps: ('add', k) ('del', k) ('dict+', k) ('dict-', k) ('deldict',) ('set', leaf) ('load',) ('structure',)
        'set' assigns a fresh value through Leaf.value, 'load' pushes fresh values through load_var_values_from_x"""
     L = make_leaves(val)
     memo, exprs, live = {}, {}, {}
@@ -673,6 +673,10 @@ def play(spec, val, Model=None):
         elif st[0] == 'dict-':
             del m.cd[st[1]]
             del live[st[1]]
+        elif st[0] == 'deldict':
+            for k in list(m.cd):
+                del live[k]
+            del m.cd
         elif st[0] == 'set':
             nset += 1
             now[st[1]] = val('%s_%d' % (st[1], nset))
@@ -735,6 +739,7 @@ def histories(tier):
     H.append(dict(name='load-x', init=['a', 'c'], steps=[('load',)]))
     H.append(dict(name='load-x-after-removal', init=['a', 'b', 'e'], steps=[('structure',), ('del', 'e'), ('del', 'b'), ('add', 'd'), ('load',)]))
     H.append(dict(name='dict-add-remove', init=['a'], steps=[('dict+', 'b'), ('structure',), ('dict+', 'e'), ('dict-', 'b'), ('dict+', 'd')]))
+    H.append(dict(name='dict-deleted-whole', init=['a', 'b'], steps=[('dict+', 'e'), ('dict+', 'd'), ('structure',), ('deldict',)]))
     H.append(dict(name='shared-expression-two-constraints', init=['f', 'g'], steps=[]))
     H.append(dict(name='shared-expression-remove-one', init=['f', 'g'], steps=[('structure',), ('del', 'f'), ('add', 'a')]))
     H.append(dict(name='three-vars', init=['a', 'b', 'e'], steps=[('set', 'z'), ('structure',)]))
